@@ -22,7 +22,7 @@ from ..core import Ctx, Ob, ok, unres, viol
 from ..flow import LocalDefs
 from ..model import AnalysisError, ClassInfo, FuncInfo, unparse, walk_no_nested
 
-ELEMENTWISE = {"log", "exp", "abs", "neg", "clone", "contiguous", "float", "double", "to", "real", "conj", "log1p", "sigmoid", "square", "sqrt", "detach"}
+ELEMENTWISE = {"long", "int", "type", "log", "exp", "abs", "neg", "clone", "contiguous", "float", "double", "to", "real", "conj", "log1p", "sigmoid", "square", "sqrt", "detach"}
 REDUCERS = {"logsumexp", "sum", "amax", "amin", "prod", "mean", "max", "min"}
 ALLOC = {"zeros", "ones", "full", "empty"}
 
@@ -243,4 +243,109 @@ def init_application(ctx: Ctx) -> list[Ob]:
                 out.append(ok("R4", f.qualname, inst, "the initialiser receives the whole (folded) tensor", l))
     if sites < 2:
         raise AnalysisError(f"floor missed: R4 found {sites} initialiser application sites, expected at least 2")
+    return out
+
+
+# ------------------------------------------------------------------------------- batch squeeze
+INPUT_FN = "cirkit.backend.torch.layers.input.TorchInputFunctionLayer"
+ENTRY = ("forward", "log_unnormalized_likelihood")
+
+
+def batch_squeeze(ctx: Ctx, require: int = 4) -> list[Ob]:
+    """The input of an input-function layer is (F, B, D) with D == 1 pinned by the constructors.
+    ``squeeze`` of axis 0 / 1 (or of all unit axes) of that *unchanged* input makes the rank of the
+    result depend on the number of folds / the batch size: a batch of one row is then evaluated as
+    if the fold axis were the batch ("each row depends only on its own row, whatever the batch
+    size").  Axis 2 / -1 (the variable axis) is fine.  Followed one call level into helpers that
+    receive the input unchanged."""
+    base = ctx.repo.cls(INPUT_FN)
+    out: list[Ob] = []
+    analysed = 0
+
+    def scan(c: ClassInfo, f: FuncInfo, pname: str, entry: str, depth: int) -> None:
+        nonlocal analysed
+        analysed += 1
+        # first line at which pname is re-bound
+        rebind = None
+        for n in walk_no_nested(f.node):
+            tgts = []
+            if isinstance(n, ast.Assign):
+                tgts = n.targets
+            elif isinstance(n, (ast.AnnAssign, ast.AugAssign)):
+                tgts = [n.target]
+            v = getattr(n, "value", None)
+            shape_preserving = (
+                isinstance(v, ast.Call)
+                and isinstance(v.func, ast.Attribute)
+                and v.func.attr in ELEMENTWISE
+                and isinstance(v.func.value, ast.Name)
+                and v.func.value.id == pname
+            )
+            for t in tgts:
+                for x in ast.walk(t):
+                    if isinstance(x, ast.Name) and x.id == pname and not shape_preserving:
+                        rebind = n.lineno if rebind is None else min(rebind, n.lineno)
+        for n in walk_no_nested(f.node):
+            if not isinstance(n, ast.Call) or (rebind is not None and n.lineno > rebind):
+                continue
+            fn = n.func
+            # x.squeeze(..) / torch.squeeze(x, ..)
+            recv = None
+            rest = list(n.args)
+            if isinstance(fn, ast.Attribute) and fn.attr == "squeeze":
+                if isinstance(fn.value, ast.Name) and fn.value.id == "torch" and n.args:
+                    recv, rest = n.args[0], list(n.args[1:])
+                else:
+                    recv = fn.value
+            if recv is not None and isinstance(recv, ast.Name) and recv.id == pname:
+                kws = {k.arg: k.value for k in n.keywords}
+                dim = kws.get("dim") or (rest[0] if rest else None)
+                d = _const_int(dim) if dim is not None else None
+                inst = f"{entry}:{f.name}:{unparse(n)}"
+                l = f"{f.module.relpath}:{n.lineno}"
+                if dim is None or d in (0, 1, -3, -2):
+                    which = "every unit axis" if dim is None else ("the batch axis" if d in (1, -2) else "the fold axis")
+                    out.append(
+                        viol(
+                            "R4",
+                            c.qualname,
+                            inst,
+                            f"{unparse(n)} squeezes {which} of the layer input (F, B, D): the rank of the result depends on the batch size / "
+                            "number of folds, so a batch of a single row is mis-evaluated under folding (rows no longer independent of the batch size)",
+                            l,
+                        )
+                    )
+                elif d in (2, -1):
+                    out.append(ok("R4", c.qualname, inst, "squeezes the variable axis (pinned to 1 by the constructor)", l))
+                else:
+                    out.append(unres("R4", c.qualname, inst, "squeeze axis not a literal", l))
+            # helper receiving the input unchanged
+            if depth < 1 and isinstance(fn, ast.Attribute) and isinstance(fn.value, ast.Name) and fn.value.id in ("self", "cls") or (
+                depth < 1 and isinstance(fn, ast.Attribute) and isinstance(fn.value, ast.Name) and fn.value.id == c.name
+            ):
+                h = ctx.repo.lookup(c, fn.attr)
+                if h is None or h.is_property:
+                    continue
+                hp = h.call_params
+                for i, a in enumerate(n.args):
+                    if isinstance(a, ast.Name) and a.id == pname and i < len(hp):
+                        scan(c, h, hp[i].name, entry, depth + 1)
+                for k in n.keywords:
+                    if isinstance(k.value, ast.Name) and k.value.id == pname and k.arg in [p.name for p in hp]:
+                        scan(c, h, k.arg, entry, depth + 1)
+
+    for c in sorted(ctx.repo.subclasses(base, strict=True), key=lambda k: k.qualname):
+        if not ctx.repo.is_concrete(c):
+            continue
+        for m in ENTRY:
+            f = ctx.repo.lookup(c, m)
+            if f is None or f.is_abstract or not f.call_params:
+                continue
+            before = len(out)
+            scan(c, f, f.call_params[0].name, m, 0)
+            if not any(o.status == "violation" for o in out[before:]):
+                out.append(ok("R4", c.qualname, f"{m}:keeps-fold-and-batch-axes", "no squeeze of axis 0 / 1 of the unchanged layer input on this evaluation path", f.loc))
+    if analysed < require:
+        raise AnalysisError(f"floor missed: R4 analysed {analysed} input-layer evaluation methods, expected at least {require}")
+    # de-duplicate (an inherited method is scanned once per concrete class: keep per class -- keys differ by class)
     return out
